@@ -89,7 +89,7 @@ def tlc(run, module, cfg_text, name, workers=None, timeout=900, extra=(), simula
     with open(cfg, "w") as f:
         f.write(cfg_text)
     meta = run.path("meta." + name)
-    cmd = ["timeout", str(timeout), "java", "-XX:+UseParallelGC", "-Xss512m", "-Xmx12g",
+    cmd = ["timeout", str(timeout), "java", "-XX:+UseParallelGC", "-Xss512m", "-Xmx12g", "-Djava.io.tmpdir=" + run.dir,
            "-cp", "/opt/veriftools/tla/tla2tools.jar:/opt/veriftools/tla/CommunityModules-deps.jar",
            "tlc2.TLC", "-workers", str(workers or min(8, NCPU)), "-metadir", meta, "-config", cfg]
     if simulate:
@@ -276,7 +276,7 @@ def validate(run, module, trace_files, name, invariants=("Done",), extra_constan
             shutil.copy(f, d)
         with open(os.path.join(d, "tv.cfg"), "w") as f:
             f.write(cfg)
-        cmd = ["timeout", str(timeout), "java", "-XX:+UseParallelGC", "-Xss512m", "-Xmx6g",
+        cmd = ["timeout", str(timeout), "java", "-XX:+UseParallelGC", "-Xss512m", "-Xmx6g", "-Djava.io.tmpdir=" + d,
                "-cp", "/opt/veriftools/tla/tla2tools.jar:/opt/veriftools/tla/CommunityModules-deps.jar",
                "tlc2.TLC", "-workers", "1", "-metadir", os.path.join(d, "meta"), "-config", "tv.cfg", module + ".tla"]
         fo = open(os.path.join(d, "out.txt"), "w")
